@@ -242,8 +242,8 @@ func variantsHistory(c *Ctx, id int) {
 							tag = "C13 user-block-changes-hash"
 							poisoned = true
 						}
-						fail("%s: a variant (%s) of block %s/%d with the same hash %s was accepted by a follower and is stored with different bytes than the original (original %d bytes, signature %d bytes, public key %d bytes; stored %d bytes, signature %d bytes, public key %d bytes)",
-							tag, vk.name, addrName(b.Address), b.Height, h8(b.Hash), len(y), len(b.Signature), len(b.PublicKey), len(x), len(hb.Signature), len(hb.PublicKey))
+						fail("%s: a variant (%s) of block %s/%d with the same hash %s was accepted by a follower and is stored with different bytes than the original (original %d bytes, signature %d bytes, public key %d bytes, base/total plasma %d/%d; delivered base/total plasma %d/%d; stored %d bytes, signature %d bytes, public key %d bytes, base/total plasma %d/%d)",
+							tag, vk.name, addrName(b.Address), b.Height, h8(b.Hash), len(y), len(b.Signature), len(b.PublicKey), b.BasePlasma, b.TotalPlasma, v.BasePlasma, v.TotalPlasma, len(x), len(hb.Signature), len(hb.PublicKey), hb.BasePlasma, hb.TotalPlasma)
 					}
 				}
 			}
